@@ -80,6 +80,9 @@ func init() {
 		}
 		v := p.nextRand(fr, p.readerOf(fr, a[0]))
 		p.addPC(c.And(c.Ge(v, c.IntC64(0)), c.Lt(v, lt)))
+		if lt.IsConst() {
+			p.noteFits(v, lt.Val)
+		}
 		return p.newBig(v)
 	}
 	summaries["github.com/bnb-chain/tss-lib/v2/common.GetRandomPositiveRelativelyPrimeInt"] = func(fr *frame, a []value) value {
